@@ -1717,6 +1717,7 @@ def _run_one(cfg, item):
 # threads: several simulated caller threads under the baton scheduler
 
 TRACED = ('pane/util.py', 'pane/convert.py')
+TRACED_CLASSES = ('pane/classes.py', 'pane/converters.py')
 TRACED_ALL = TRACED + ('pane/classes.py', 'pane/converters.py', 'pane/annotations.py', 'pane/types.py', 'pane/field.py', 'pane/errors.py')
 
 
@@ -1745,7 +1746,7 @@ def gen_plan_threads(seed: int, wide=False) -> dict:
     kinds = rk.sample(C10_KINDS, rk.choice([3, 5, 8]))
     roots = {}
     ncls = 0
-    for _ in range(ro.choice([0, 1, 2])):
+    for _ in range(ro.choice([0, 1, 1, 2])):
         spec = tg.gen_class_spec(ro, sym, f'C{ncls}', [k for k in kinds if k not in ('tl', 'dl')], C10_SCALARS,
                                  custom_specs=[None, None, ['one', 'dbl_int']], generic_p=0.4)
         sym.classes[spec['name']] = True
@@ -1794,6 +1795,32 @@ def gen_plan_threads(seed: int, wide=False) -> dict:
             else:
                 ops.append({'op': 'lookup', 'root': ro.choice(sorted(roots)), 'custom': ro.choice(hs)})
         plan['threads'].append(ops)
+    # scenario: every thread converts *different* valid values through one and the same dataclass converter (directly
+    # and nested in a container) at the same time, pre-empted inside pane.classes / pane.converters: a converter
+    # object that keeps per-call scratch state on itself hands one thread the other's fields
+    rs = st.rng('same_class')
+    plain = [n for (n, sp) in sorted(sym.class_specs.items()) if not sp.get('tv') and sp.get('fields')]
+    if plain and rs.random() < 0.6:
+        cname = rs.choice(plain)
+        rname = next((r for (r, a) in sorted(roots.items()) if a == ['cls', cname]), None)
+        if rname is None:
+            rname = f'r{len(roots)}'
+            roots[rname] = ['cls', cname]
+            plan['setup'].append({'op': 'build', 'name': rname, 't': ['cls', cname]})
+        lname = f'r{len(roots)}'
+        roots[lname] = ['list', ['cls', cname]]
+        plan['setup'].append({'op': 'build', 'name': lname, 't': roots[lname]})
+        custom = rs.choice([None, None, ['one', 'dbl_int']])
+        for ops in plan['threads']:
+            for _ in range(rs.choice([1, 2, 3])):
+                rn = rname if rs.random() < 0.7 else lname
+                try:
+                    data = tg.enc(tg.sample_value(roots[rn], sym, rs, valid_p=1.0 if rs.random() < 0.8 else 0.7))
+                except HarnessError:
+                    continue
+                ops.insert(rs.randrange(len(ops) + 1), {'op': 'convert', 'root': rn, 'custom': custom, 'data': data})
+        knobs['trace_scope'] = rs.choice(['all', 'all', 'classes'])
+        knobs['switch_p'] = rs.choice([0.15, 0.3, 0.5])
     return plan
 
 
@@ -1818,7 +1845,7 @@ def execute_threads(plan, want_trace=False) -> dict:
     def count(k, n=1):
         counters[k] = counters.get(k, 0) + n
 
-    sched = Scheduler(st.rng('sched'), TRACED_ALL if knobs.get('trace_scope') == 'all' else TRACED,
+    sched = Scheduler(st.rng('sched'), {'all': TRACED_ALL, 'classes': TRACED_CLASSES}.get(knobs.get('trace_scope'), TRACED),
                       switch_p=knobs['switch_p'], schedule=plan.get('schedule'), max_steps=120000,
                       opcode_files=('pane/util.py',) if knobs.get('opcode_trace') else ())
     sched.region_probe = lambda fr: fr.f_code.co_name == '__call__' and fr.f_code.co_filename.endswith('pane/util.py')
